@@ -314,6 +314,9 @@ func GenCase(t *rapid.T, ep *EP) Case {
 			addw("bytes", 10)
 		}
 	}
+	if strings.HasPrefix(ep.Format, "tls:") && len(seeds) > 0 {
+		addw("tlsvec", 8) // structure-aware edits of TLS length fields (see tlsvec.go)
+	}
 	if hostileOK {
 		addw("hostile", 4)
 	}
@@ -362,6 +365,8 @@ func GenCase(t *rapid.T, ep *EP) Case {
 		case "onecrl":
 			c.Data = GenOneCRL(t)
 		}
+	case "tlsvec":
+		c.Data, c.Ops = MutateTLSVectors(t, seed())
 	case "tree":
 		c.Data = clip(dergen.GenNode(t, rapid.IntRange(0, 4).Draw(t, "depth")).Encode())
 	case "random":
